@@ -211,9 +211,11 @@ func (x *Exec) runLoop(st *State, ls loopSpec) *State {
 		x.oblige(st, x.oblName(fr, lname+"."+c.Label+".entry"), "invariant-entry", ls.node.Pos(), c.Src, g)
 	}
 	heldAtHead := st.held == 1
+	var loopEntry *State
 	if d.cut && heldAtHead {
 		// the loop body releases the lock: the loop head is a virtual cut point
 		x.cutAssert(st, ls.node.Pos(), x.cutName(fr, lname+".head"), fr.recv)
+		loopEntry = st.Snapshot()
 	}
 	// 3. havoc
 	allocAtEntry := x.heapGet(st, allocKey, SInt)
@@ -241,6 +243,9 @@ func (x *Exec) runLoop(st *State, ls loopSpec) *State {
 	}
 	if d.cut && heldAtHead {
 		x.assumeInv(st, fr.recv)
+		// G relates the state at loop entry (a cut point) to every later loop head: each iteration
+		// is checked against G and G is transitive
+		x.assumeGuar(st, loopEntry, fr.recv)
 		st.secStart = st.Snapshot()
 		st.held = 1
 	}
